@@ -198,6 +198,7 @@ func stdPairings() []Pairing {
 		{Name: "Q9W2.cget>grpc.proto", Client: wire.ConnectGet, ClientCodec: "proto", Method: "Pure", Target: wire.GRPC, TgtCodecs: []string{"proto"}},
 		{Name: "Q10W7.grpc>rest.body", Client: wire.GRPC, ClientCodec: "proto", Method: "Unary", Target: wire.REST, TgtCodecs: []string{"json"}},
 		{Name: "Q10W7.cunary>rest.nobody", Client: wire.ConnectUnary, ClientCodec: "json", Method: "Pure", Target: wire.REST, TgtCodecs: []string{"json"}},
+		{Name: "Q10W7.grpcweb>rest.nobody", Client: wire.GRPCWeb, ClientCodec: "proto", Method: "Pure", Target: wire.REST, TgtCodecs: []string{"json"}}, // (the backend's request has no body: the rest of the client's stream is only drained)
 		{Name: "Q10W7.grpcweb>rest.bodyfield", Client: wire.GRPCWeb, ClientCodec: "json", Method: "Idem", Target: wire.REST, TgtCodecs: []string{"json"}},
 		{Name: "Q2W6.grpc>connectstream.sstream.json", Client: wire.GRPC, ClientCodec: "proto", Method: "SStream", Target: wire.ConnectStream, TgtCodecs: []string{"json"}, NResp: 3},
 		{Name: "Q2W6.connect.proto.crc>grpc.json.crc", Client: wire.ConnectStream, ClientCodec: "proto", ClientComp: "crc", Accept: []string{"crc"}, Method: "Bidi", Target: wire.GRPC, TgtCodecs: []string{"json"}, TgtComp: []string{"crc"}, RespComp: "crc", NMsgs: 2, NResp: 2},
